@@ -291,6 +291,28 @@ func factsTokens(t *T) (string, error) {
 			fmt.Fprintf(&sb, "Definition quoted_escape_requires_special : bool := %v.   (* `p.ConsumeWith(IsQuotedSpecial, …)` after a backslash *)\n",
 				strings.Contains(nq, "p.Matches(TokenTypeBackslash)") && strings.Contains(nq, "p.ConsumeWith(IsQuotedSpecial,"))
 		}
+		// the continuation request ("+") is asked for every literal whose header is complete, whatever its size
+		{
+			found, uncond := false, false
+			ast.Inspect(fd.Body, func(n ast.Node) bool {
+				is, ok := n.(*ast.IfStmt)
+				if !ok {
+					return true
+				}
+				body := strings.Join(strings.Fields(t.Src("rfcparser/parser.go", is.Body)), " ")
+				if strings.Contains(body, "p.literalContinuationCb()") {
+					found = true
+					cond := strings.Join(strings.Fields(t.Src("rfcparser/parser.go", is.Cond)), " ")
+					uncond = cond == "p.Check(TokenTypeLF) && p.literalContinuationCb != nil" || cond == "p.literalContinuationCb != nil && p.Check(TokenTypeLF)"
+				}
+				return true
+			})
+			if !found {
+				unknown("literal_continuation_unconditional", "call of p.literalContinuationCb() in ParseLiteral")
+			} else {
+				fmt.Fprintf(&sb, "Definition literal_continuation_unconditional : bool := %v.   (* the callback does not depend on the literal size *)\n", uncond)
+			}
+		}
 		// does ParseLiteral special-case size 0 (return before Scanner.ConsumeBytes)?
 		src := t.Src("rfcparser/parser.go", fd.Body)
 		norm := strings.Join(strings.Fields(src), " ")
